@@ -232,6 +232,7 @@ def run(ck):
     ck.rule('R9.2t', 'string-valued elements emit exactly Start, Text, End unconditionally')
     ck.rule('R9.3', 'each property-like element contains exactly one value serialization')
     ck.rule('R9.4', 'element and attribute names come from the Qt Designer vocabulary; document frame order')
+    ck.rule('R9.6', 'string literals are decoded before they are embedded (shared with C03 R3.1)')
     ck.rule('R9.5', 'the file on disk is exactly the serializer output: written to a fresh temp file and renamed, an existing file kept only if it holds the same bytes (shared with C15 R15.2/R15.3/R15.4)')
 
     # ---- R9.1 ---------------------------------------------------------------
@@ -465,3 +466,9 @@ def run(ck):
             n5 += 1
             ck.ob('R9.5', '%s|%s' % (o['rule'], o['key']), o['ok'], o['loc'], o['detail'], nontrivial=False)
     ck.floor('R9.5', n5, 19, 'writer-protocol obligations shared with C15')
+
+    # ---- R9.6 what is embedded is the decoded string (C03 R3.1 on the same facts) ----------------------------------------------------
+    import rules.c03 as c03
+    s3 = _core.Shared(ck, 'R9.6', lambda r, k: r == 'R3.1', 'C03:', ' [an undecoded escape sequence reaches the .ui as backslash text]')
+    c03.run(s3)
+    ck.floor('R9.6', s3.count, 10, 'shared C03 R3.1 obligations')
